@@ -46,8 +46,11 @@ pub fn ignore_filter(entry: &DirEntry, ignore: &Option<Gitignore>) -> bool {
         // contents are subject to the ignore rules.
         Some(_) if entry.depth() == 0 => true,
         Some(gi) => {
-            let path = entry.path();
-            let m = gi.matched(path, path.is_dir());
+            // A symlink is not a directory as far as gitignore is
+            // concerned, even when it points to one (unless the walk
+            // is following links, in which case the entry's type is
+            // that of the target).
+            let m = gi.matched(entry.path(), entry.file_type().is_dir());
             !m.is_ignore()
         }
     }
